@@ -366,7 +366,11 @@ pub fn c02(ctx: &mut Ctx) {
                 }
             }
         } else { ctx.count("op-no-site"); }
-        // (ii) blind edits judged by libxml2 and expat together
+        // (ii) blind edits judged by libxml2 and expat together. expat implements the name rules of older
+        // editions, so these documents use ASCII names only (otherwise expat's verdict carries no information).
+        let doc = { let mut c2 = c01_cfg(); c2.nonascii = false; let mut g = Gen::new(&mut r, c2); g.doc() };
+        let toks = render_tokens(&doc, &mut r, Style { minimal });
+        if refxml::expat_wf(&join(&toks)) != Some(true) { ctx.inconclusive("expat_rejects_unedited_rendering"); continue; }
         let k = if ctx.thorough { 3 } else { 2 };
         for _ in 0..k {
             let (text, kind) = blind_edit(&toks, &mut r);
@@ -404,15 +408,53 @@ pub fn explain_blind(text: &str) -> Option<&'static str> {
     let lead = |out: &str| -> bool {
         let t = out.trim_end_matches(|c: char| c == ' ' || c == '\t' || c == '\n' || c == '\r');
         let had_ws = t.len() != out.len();
-        out.ends_with("<?") || out.ends_with('&') || out.ends_with('%') || (had_ws && (t.ends_with("<!ENTITY") || t.ends_with("<!NOTATION") || t.ends_with("NDATA") || t.ends_with("<!ENTITY %") || t.ends_with('%')))
+        out.ends_with('&') || (had_ws && (t.ends_with("<!ENTITY") || t.ends_with("<!NOTATION") || t.ends_with("NDATA")))
     };
+    let starts = |i: usize, pat: &str| -> bool { let p: Vec<char> = pat.chars().collect(); i + p.len() <= cs.len() && cs[i..i + p.len()] == p[..] };
+    let find_from = |i: usize, pat: &str| -> Option<usize> { let p: Vec<char> = pat.chars().collect(); (i..cs.len().saturating_sub(p.len() - 1)).find(|&j| cs[j..j + p.len()] == p[..]) };
     while i < cs.len() {
+        // comments, CDATA sections and PI data are copied verbatim
+        if starts(i, "<!--") { let e = find_from(i + 4, "-->").map(|e| e + 3).unwrap_or(cs.len()); out.extend(cs[i..e].iter()); i = e; continue; }
+        if starts(i, "<![CDATA[") { let e = find_from(i + 9, "]]>").map(|e| e + 3).unwrap_or(cs.len()); out.extend(cs[i..e].iter()); i = e; continue; }
+        if starts(i, "<?") {
+            out.push_str("<?"); i += 2;
+            if i < cs.len() && bad(cs[i]) { out.push('n'); changed = true; i += 1; }
+            let e = find_from(i, "?>").map(|e| e + 2).unwrap_or(cs.len());
+            out.extend(cs[i..e].iter()); i = e; continue;
+        }
         let c = cs[i];
         if bad(c) && lead(&out) { out.push('n'); changed = true; } else { out.push(c); }
         i += 1;
     }
-    if changed && refxml::parse(&out, false).wf && refxml::expat_wf(&out) == Some(true) { return Some("name-start"); }
+    if changed && refxml::parse(&out, false).wf { return Some("name-start"); }
+    // finding "'<' that reaches an attribute value or content through an entity's replacement text is not detected"
+    if let Some(rep) = repair_entity_lt(text) { if refxml::parse(&rep, false).wf { return Some("entity-lt"); } }
     None
+}
+
+/// replace '<' (literal or as a character reference) inside entity value literals by 'x'
+fn repair_entity_lt(text: &str) -> Option<String> {
+    let mut out = String::new();
+    let mut rest = text;
+    let mut changed = false;
+    while let Some(p) = rest.find("<!ENTITY") {
+        out.push_str(&rest[..p + 8]);
+        rest = &rest[p + 8..];
+        // up to the first quote = name (and maybe '%'); then the literal
+        let q = match rest.find(|c| c == '"' || c == '\'') { Some(q) => q, None => break };
+        let gt = rest.find('>').unwrap_or(rest.len());
+        if gt < q { continue; }
+        let quote = rest[q..].chars().next().unwrap();
+        let endq = match rest[q + 1..].find(quote) { Some(e) => q + 1 + e, None => break };
+        out.push_str(&rest[..q + 1]);
+        let lit = &rest[q + 1..endq];
+        let fixed = lit.replace('<', "x").replace("&#60;", "x").replace("&#x3c;", "x").replace("&#x3C;", "x").replace("]]>", "]] >");
+        if fixed != lit { changed = true; }
+        out.push_str(&fixed);
+        rest = &rest[endq..];
+    }
+    out.push_str(rest);
+    if changed { Some(out) } else { None }
 }
 
 /// crude re-tokenisation of a text (for a second edit on an already edited text)
@@ -724,6 +766,7 @@ pub fn c11(ctx: &mut Ctx) {
                             kinds.sort(); kinds.dedup();
                             let what = if what == "error" && *dname == "DEFAULTENT" { "error-default-entref".to_string() } else { what };
                             if what == "error-default-entref" { ctx.violation(idx, "C11/error-default-entref", &format!("{} :: {}", detail, text), &[("text", &text)]); continue; }
+                            if what == "defaulted-extra" && !written { ctx.violation(idx, &format!("C11/defaulted-extra/unwritten-{}", dname), &format!("{} :: {}", detail, text), &[("text", &text)]); continue; }
                             let sig = format!("C11/{}/{}/{}/{}", what, if ty.is_none() { "undeclared" } else if matches!(ty, Some(AttType::CData)) { "CDATA" } else { "tokenized" }, if written { kinds.join("+") } else { format!("unwritten-{}", dname) }, if layout == 3 { "repeated-def" } else if layout == 1 { "second-attlist" } else { "-" });
                             ctx.violation(idx, &sig, &format!("{} :: {}", detail, text), &[("text", &text)]);
                         }
@@ -743,6 +786,7 @@ pub fn witness(prop: &str, f: &[String], _ctx: &mut Ctx) -> Option<String> {
     let text = f.get(1).cloned().unwrap_or_default();
     match (prop, kind) {
         ("C02", "text") => match xmlrs_accepts(&text) { Ok(true) => { let lx = refxml::parse(&text, false); if !lx.wf { Some("C02/accept".into()) } else { None } } _ => None },
+        ("C02", "explain") => { eprintln!("libxml2 wf={} expat={:?} explain={:?}", refxml::parse(&text, false).wf, refxml::expat_wf(&text), explain_blind(&text)); None }
         ("C03", "text") => c03_eval(&text, None).map(|x| format!("C03/{}", x.0)),
         ("C03", "family") => { let n: usize = f.get(2)?.parse().ok()?; match run_family_child(&text, n) { Ok(Some((c, _))) => Some(format!("C03/{}", c)), _ => None } }
         ("C04", "text") => c04_eval(&text).map(|x| format!("C04/{}", x.0)),
